@@ -32,6 +32,9 @@ var nondetFuncs = map[string]bool{
 }
 
 func checkC13(p *Prog, l *Ledger) {
+	// "listing the keys of an unmodified object gives the same sequence every time": one pass over the shared ordering
+	// function on every call, nothing remembered between calls (rule of C12)
+	l.AsOnly(map[string]string{"C12/S2-listing": "C13/S1-listing-order"}, func() { checkC12(p, l) })
 	mainPkg := p.Pkg("main")
 	if mainPkg == nil || mainPkg.Func("main") == nil {
 		l.Undecide("C13/anchors", "main.main", "", "main.main not found")
